@@ -155,7 +155,7 @@ def remove(ctx):
             # from the None arm, removal must be unreachable: evaluate with the bool flag false
             R.require(c.bb not in b.reachable(none_t), "none-skips-compare", b.where(sw), "an unknown actor is not compared")
     # paired: both removes are in the same region
-    R.require(all(b.dominates(x.bb, y.bb) or b.dominates(y.bb, x.bb) for x in st for y in ba), "paired", st[0].where(), "states.remove and by_addr.remove are on the same path",
+    R.require(all(b.can_reach(x.bb, y.bb) or b.can_reach(y.bb, x.bb) for x in st for y in ba), "paired", st[0].where(), "states.remove and by_addr.remove are on the same path",
               fail_msg="states.remove and by_addr.remove are not on the same path: indexes diverge")
     # operands: stored ts vs actor ts
     o0, o1 = cm.origin_summary(cm.operand_origins(b, c, 0)), cm.origin_summary(cm.operand_origins(b, c, 1))
@@ -216,6 +216,7 @@ def index(ctx):
         ok = all(o.kind == "call" and o.call.name() == "addr" for o in a1) and all(o.kind == "call" and o.call.name() == "id" for o in a2) and a1 and a2
         R.require(ok, "insert-args#%d" % ins.index(c), c.where(), "by_addr.insert(actor.addr(), actor.id())",
                   fail_msg="by_addr.insert is given %s -> %s" % (cm.origin_summary(a1), cm.origin_summary(a2)))
+    guarded_removes(ctx, R)
     # inventory: who mutates Members.states / by_addr at all
     allowed = {"states": {M + "::add_member", M + "::remove_member", M + "::update_sync_ts", M + "::recalculate_rings"},
                "by_addr": {M + "::add_member", M + "::remove_member", "klukai_agent::agent::util::initialise_foca"}}
@@ -229,6 +230,35 @@ def index(ctx):
         for rid, where in sorted(roots.items()):
             R.require(rid in ok_set, "mutator:%s@%s" % (f, rid), where, "Members.%s mutated in %s" % (f, rid.rsplit("::", 1)[-1]),
                       fail_msg="Members.%s is mutated in %s, outside the paired-update functions" % (f, rid))
+
+
+def guarded_removes(ctx, R, bodies=None):
+    """an address may meanwhile belong to another member: by_addr.remove(addr) must be guarded by by_addr[addr] == this actor"""
+    F = ctx.F
+    n = 0
+    for fn in (M + "::add_member", M + "::remove_member"):
+        b = F.get(fn)
+        if b is None:
+            continue
+        rems = [c for c in b.calls if re.search(r"BTreeMap::<K, V, A>::remove$", c.f) and _on_field(b, c, "by_addr")]
+        for c in rems:
+            n += 1
+            eqs = [e for e in b.calls if e.f in ("core::cmp::PartialEq::eq", "core::cmp::PartialEq::ne") and "ActorId" in e.self_ty and "Option" in e.self_ty and b.dominates(e.bb, c.bb)]
+            ok = False
+            why = "no dominating comparison of by_addr.get(addr) with the actor's id"
+            for e in eqs:
+                src = cm.deep_names(b, op_place(e.args[0]), (e.bb, "T"))[1] | cm.deep_names(b, op_place(e.args[1]), (e.bb, "T"))[1]
+                flds = cm.deep_names(b, op_place(e.args[0]), (e.bb, "T"))[0] | cm.deep_names(b, op_place(e.args[1]), (e.bb, "T"))[0]
+                if "get" not in src or "by_addr" not in flds:
+                    continue
+                good, d = cm.effect_only_when_equal(b, e, [c.bb])
+                if good:
+                    ok = True
+                else:
+                    why = "reachability by comparison outcome: %s" % d
+            R.require(ok, "remove-guarded@%s" % fn.rsplit("::", 1)[-1], c.where(), "by_addr.remove(addr) happens only if by_addr[addr] still maps to this actor",
+                      fail_msg="%s removes by_addr[addr] unconditionally (%s): if another member now lives at that address its entry is erased and its round-trip samples are no longer attributed" % (fn.rsplit("::", 1)[-1], why))
+    R.floor(n, 2, "by_addr-removes", "by_addr.remove sites")
 
 
 # ------------------------------------------------------------------------------------------------ rtt
